@@ -446,6 +446,14 @@ fn apply_one(st: &Applied, rr: &Rr, out: &mut Vec<Applied>) {
     let apex = rr.name == zone.origin;
     if rr.class == zone.class {
         // ---- add
+        if rr.rdata.is_empty() {
+            // a zone-class RR with RDLENGTH 0: the prescan (3.4.1.2) does not forbid it, 3.4.2.2 "adds"
+            // it, but it is no RR of its type - ignoring it and storing it as written are both taken
+            // (the zone invariants are judged whichever the server does)
+            let mut ign = st.clone();
+            ign.forks.push("zone-class-rr-with-empty-rdata:ignored");
+            out.push(ign);
+        }
         if rr.rtype == T_CNAME {
             if zone.rrs.iter().any(|z| z.name == rr.name && z.rtype != T_CNAME) {
                 out.push(st.clone());
